@@ -52,3 +52,8 @@ impl VerifBuddy {
         self.0.highest_free_order()
     }
 }
+
+/// The real checksum function (XXH3-128, seed 0)
+pub fn verif_xxh3_checksum(data: &[u8]) -> u128 {
+    super::page_manager::xxh3_checksum(data)
+}
